@@ -5,6 +5,7 @@ import (
 	"strings"
 
 	"github.com/sarchlab/akita/v4/mem/cache/writearound"
+	"github.com/sarchlab/akita/v4/mem/cache/writeback"
 	"github.com/sarchlab/akita/v4/mem/cache/writeevict"
 	"github.com/sarchlab/akita/v4/mem/cache/writethrough"
 	"github.com/sarchlab/akita/v4/mem/mem"
@@ -34,6 +35,94 @@ type staleMon struct {
 	// an earlier kernel, after this cache fetched it, where the bytes overlap.
 	StaleHits uint64
 	Example   string
+
+	// L2Overtakes counts reads that a second-level (write-back) cache answered
+	// although a write to the same line that it had RECEIVED EARLIER was not yet
+	// acknowledged, with data that lacks that write's bytes: the read overtook
+	// the write inside the cache (same-address order lost).
+	L2Overtakes uint64
+	L2Example   string
+	l2writes    map[string]map[string]*l2write // cache -> write id -> write
+	l2reads     map[string]map[string]l2read   // cache -> read id -> read
+}
+
+type l2write struct {
+	line uint64
+	seq  uint64
+	off  uint64
+	data []byte
+	mask []bool
+}
+
+type l2read struct {
+	addr uint64
+	seq  uint64
+}
+
+// l2OvertakeCause is the signature suffix naming this diagnosed cause.
+const l2OvertakeCause = "timing-l2-read-overtook-earlier-write-to-same-line"
+
+func (m *staleMon) attachL2(c sim.Component) {
+	name := c.Name()
+	top := c.GetPortByName("Top")
+	if top == nil {
+		return
+	}
+	if m.l2writes == nil {
+		m.l2writes = map[string]map[string]*l2write{}
+		m.l2reads = map[string]map[string]l2read{}
+	}
+	m.l2writes[name] = map[string]*l2write{}
+	m.l2reads[name] = map[string]l2read{}
+	top.AcceptHook(hookFunc(func(ctx sim.HookCtx) {
+		switch ctx.Pos {
+		case sim.HookPosPortMsgRecvd:
+			m.seq++
+			switch r := ctx.Item.(type) {
+			case *mem.WriteReq:
+				mask := r.DirtyMask
+				if mask == nil {
+					mask = make([]bool, len(r.Data))
+					for i := range mask {
+						mask[i] = true
+					}
+				}
+				m.l2writes[name][r.ID] = &l2write{line: r.Address >> 6, seq: m.seq, off: r.Address & 63, data: append([]byte{}, r.Data...), mask: mask}
+			case *mem.ReadReq:
+				m.l2reads[name][r.ID] = l2read{addr: r.Address, seq: m.seq}
+			}
+		case sim.HookPosPortMsgSend:
+			switch r := ctx.Item.(type) {
+			case *mem.WriteDoneRsp:
+				delete(m.l2writes[name], r.RespondTo)
+			case *mem.DataReadyRsp:
+				rd, ok := m.l2reads[name][r.RespondTo]
+				if !ok {
+					return
+				}
+				delete(m.l2reads[name], r.RespondTo)
+				for id, w := range m.l2writes[name] {
+					if w.line != rd.addr>>6 || w.seq > rd.seq {
+						continue
+					}
+					// an earlier-received, still unacknowledged write to the line: does the answer contain it?
+					for i := range w.data {
+						pos := int64(w.off) + int64(i) - int64(rd.addr&63)
+						if !w.mask[i] || pos < 0 || pos >= int64(len(r.Data)) {
+							continue
+						}
+						if r.Data[pos] != w.data[i] {
+							m.L2Overtakes++
+							if m.L2Example == "" {
+								m.L2Example = fmt.Sprintf("%s answered a read of line %#x (received after write %s to the same line) before that write was applied: byte %d is %#x, the write carries %#x", name, rd.addr&^63, id, pos, r.Data[pos], w.data[i])
+							}
+							return
+						}
+					}
+				}
+			}
+		}
+	}))
 }
 
 type staleWrite struct {
@@ -70,6 +159,10 @@ func attachStaleMon(p *Platform) *staleMon {
 		}
 	}))
 	for _, comp := range p.Sim.Components() {
+		if wb, ok := comp.(*writeback.Comp); ok && strings.Contains(wb.Name(), "L2Cache") {
+			m.attachL2(wb)
+			continue
+		}
 		var c sim.Component
 		switch cc := comp.(type) {
 		case *writethrough.Comp:
@@ -153,3 +246,18 @@ func attachStaleMon(p *Platform) *staleMon {
 
 // staleL1Cause is the signature suffix naming the diagnosed cause.
 const staleL1Cause = "timing-l1-copy-older-than-another-cus-write-in-earlier-kernel"
+
+// knownCause names the diagnosed cause observed in this run, if any ("" otherwise), and a description of the
+// first observation. The second-level overtake takes precedence (it is the rarer, more specific observation).
+func (m *staleMon) knownCause() (cause, example string) {
+	if m == nil {
+		return "", ""
+	}
+	if m.L2Overtakes > 0 {
+		return l2OvertakeCause, fmt.Sprintf("%d reads overtook an earlier write in a second-level cache, first: %s", m.L2Overtakes, m.L2Example)
+	}
+	if m.StaleHits > 0 {
+		return staleL1Cause, fmt.Sprintf("%d stale first-level-cache reads, first: %s", m.StaleHits, m.Example)
+	}
+	return "", ""
+}
